@@ -74,15 +74,17 @@ CELLS = [0.5, 0.75, 0.5, 1.0, 0.625, 0.5, 0.75, 1.0]     # cell length per phase
 
 
 # ------------------------------------------------------------------------------------------ annotations
-def annotations(ncells, kmax, names, cell, shift=0.0):
+def annotations(ncells, kmax, names, cell, shift=0.0, tail=0.0):
     """Every (boundaries, labels): compositions of ncells cells x restricted-growth strings over <=kmax names.
-    `shift` moves every boundary except the first (fs0.1 space: 0.5k + 0.05)."""
+    `shift` moves every boundary except the first (fs0.1 space: 0.5k + 0.05); `tail` is added to the common end
+    only (a partial last frame: T/frame_size is then not an integer)."""
     out = []
     for comp in lib.compositions(ncells):
         cuts = [0]
         for c in comp:
             cuts.append(cuts[-1] + c)
         bounds = [0.0] + [float(Fr(k) * Fr(cell) + Fr(shift)) for k in cuts[1:]]
+        bounds[-1] = float(Fr(bounds[-1]) + Fr(tail))
         for rg in lib.restricted_growth(len(comp), kmax):
             out.append((tuple(bounds), tuple(names[v] for v in rg)))
     return out
@@ -192,6 +194,11 @@ def check_pair(acc, rb, rl, eb, el, fs, betas, case_rel=False, full_identity=Tru
     same = M.same_partition(yr, ye)
     c = acc.counters
     c["frames_total"] += n
+    q = Fr(rb[-1]) / Fr(fs)
+    if q.denominator != 1:
+        c["in.partial_last_frame"] += 1
+        if q - (q.numerator // q.denominator) > Fr(1, 2):
+            c["in.partial_last_frame_more_than_half"] += 1
     if same:
         c["in.partitions_coincide"] += 1
         if [str(x).lower() for x in rl] != [str(x).lower() for x in el] or tuple(rb) != tuple(eb):
@@ -464,11 +471,18 @@ def run(run):
         e = annotations(ncells, ncells, en, cell)
         shards += [(ch, e, fss, BETAS, False, True) for ch in core.chunks(r, 16 if ncells >= 4 else 1)]
     run.explore("small spans 1..%d cells, <=1 name per segment" % top, mod, "shard_pairs", shards)
+    # the same with a partial last frame: T = n*cell + 3/8 cell, so T/fs has fractional part .375 / .75
+    shards = []
+    for ncells in range(1, 5):
+        r = annotations(ncells, ncells, rn, cell, tail=0.375 * cell)
+        e = annotations(ncells, ncells, en, cell, tail=0.375 * cell)
+        shards += [(ch, e, fss, (1.0,), False, True) for ch in core.chunks(r, 16 if ncells >= 4 else 1)]
+    run.explore("small spans 1..4 cells, partial last frame", mod, "shard_pairs", shards)
     # documented default frame size on the off-grid lattice
     n01 = 5 if thorough else 4
-    r = annotations(n01, 3, rn, 0.5, shift=0.05)
-    e = annotations(n01, 3, en, 0.5, shift=0.05)
-    run.explore("fs0.1, %d cells, boundaries at odd multiples of 0.05" % n01, mod, "shard_pairs",
+    r = annotations(n01, 3, rn, 0.5, shift=0.05, tail=0.03)
+    e = annotations(n01, 3, en, 0.5, shift=0.05, tail=0.03)
+    run.explore("fs0.1, %d cells, boundaries at odd multiples of 0.05, end at +0.08" % n01, mod, "shard_pairs",
                 [(ch, e, [0.1], (1.0,), False, True) for ch in core.chunks(r, 32)])
     # case collisions
     crn, cen = CASE_MENUS[ph]
@@ -489,4 +503,5 @@ def run(run):
         "in.exactly_one_side_one_cluster", "in.a_side_all_singletons", "in.both_all_singletons",
         "in.independent_nontrivial", "in.nonsquare_table", "in.case_collision_within_annotation",
         "in.adjacent_equal_labels", "undef.Pairwise Precision", "undef.Pairwise Recall",
-        "undef.Normalized Mutual Information", "undef.Adjusted Mutual Information", "undef.Rand Index")
+        "undef.Normalized Mutual Information", "undef.Adjusted Mutual Information", "undef.Rand Index",
+        "in.partial_last_frame_more_than_half")
